@@ -91,13 +91,27 @@ func runC14(c *core.Ctx) {
 				sets = append(sets, a.Pt)
 			}
 		}
-		okAll := len(sets) > 0
-		for _, rp := range rel.ReturnPoints() {
-			if ok, _ := rel.MustPassBefore(sets, rp); !ok {
-				okAll = false
+		// The obligation is on the state at the exit, not on the assignment: a path that leaves on the edge
+		// where the flag of this event was just read as true (early return for an already released event)
+		// owes no second assignment. Every other path from the entry to a (explicit or implicit) return
+		// passes `released = true`.
+		isReleased := func(ft core.Fact) bool {
+			cm, ok := core.NormCmp(ft)
+			if !ok || cm.R != nil || cm.Op != token.EQL {
+				return false
+			}
+			root, path := fieldPath(rel, cm.L)
+			return len(path) == 1 && path[0] == relF && ev != nil && varOf(rel, root) == ev
+		}
+		wit, leaves := (core.PathQuery{F: rel, From: rel.Entry(), Target: func(core.Point) bool { return false }, TargetExit: true,
+			Avoid: core.PointSet(sets...), AvoidEdge: rel.GuardEdges(isReleased)}).Find()
+		c.Check(len(sets) > 0 && !leaves, "releaseEvent sets released on every path", "T2 Dominates", rel.Pos(), "every return of releaseEvent follows released = true or the edge on which the event is already released", "releaseEvent can return without marking the event released: "+rel.DescribePath(wit))
+		// no write clears the flag again
+		for _, a := range assignsToField(rel, relF) {
+			if !isIdentNamed(a.RHS, "true") {
+				c.Fail("released is only ever set", "T17 Typestate", a.Stmt.Pos(), "releaseEvent writes a value other than true to released: the exactly-once flag can be cleared")
 			}
 		}
-		c.Check(okAll, "releaseEvent sets released on every path", "T2 Dominates", rel.Pos(), "released = true dominates every return of releaseEvent", "releaseEvent can return without marking the event released")
 		// T6: Released callback is invoked nowhere else
 		for _, f := range p.FuncsInPkg("gossip/dagordering") {
 			if f != rel && len(f.CallsTo(cbReleased)) > 0 {
